@@ -38,21 +38,28 @@ impl Obs {
         }
     }
     fn command(self, level: usize, g: usize, from: usize, to: usize) -> Command {
-        let mut c = match self {
-            Obs::Native | Obs::Growth => Command::new(BIN),
+        // every child runs under coreutils `timeout`: a program that never returns is
+        // attributed to the announced probe (exit status 124)
+        let mut c = Command::new("timeout");
+        c.args(["-k", "5", match self {
+            Obs::Native => "120",
+            Obs::Growth => "300",
+            Obs::Valgrind => "900",
+            Obs::Miri => "2400",
+        }]);
+        match self {
+            Obs::Native | Obs::Growth => {
+                c.arg(BIN);
+            }
             Obs::Valgrind => {
-                let mut c = Command::new("valgrind");
-                c.args(["-q", "--error-exitcode=99", "--exit-on-first-error=yes", "--leak-check=no", BIN]);
-                c
+                c.args(["valgrind", "-q", "--error-exitcode=99", "--exit-on-first-error=yes", "--leak-check=no", BIN]);
             }
             Obs::Miri => {
-                let mut c = Command::new("cargo");
-                c.args(["+nightly", "miri", "run", "--offline", "-q", "--target-dir", "/verif/engine/target-miri", "--"]);
+                c.args(["cargo", "+nightly", "miri", "run", "--offline", "-q", "--target-dir", "/verif/engine/target-miri", "--"]);
                 c.current_dir(DIR);
                 c.env("MIRIFLAGS", "-Zmiri-disable-isolation -Zmiri-permissive-provenance -Zmiri-ignore-leaks");
-                c
             }
-        };
+        }
         c.arg(if self == Obs::Growth { "leak" } else { "run" });
         c.args([g.to_string(), from.to_string(), to.to_string()]);
         c.env("MEMPROBE_LEVEL", level.to_string());
@@ -165,7 +172,9 @@ fn run_item(obs: Obs, level: usize, gi: &GroupInfo, from: usize, to: usize, out:
                     let from = pos.unwrap_or(lines.len().saturating_sub(12));
                     lines[from..lines.len().min(from + 14)].join("\n")
                 };
+                let timed_out = o.status.code() == Some(124) || o.status.code() == Some(137);
                 let what = match obs {
+                    _ if timed_out => "this program did not return within the time limit of its observer (non-termination)",
                     Obs::Miri => "Miri stopped inside this program (undefined behaviour, data race or abort)",
                     Obs::Valgrind => "valgrind memcheck reported an invalid access inside this program",
                     _ => "the process died inside this program (abort or fatal signal instead of a return or a Rust panic)",
@@ -229,21 +238,30 @@ fn canaries(obs_list: &[Obs]) -> Result<Value, String> {
     let gs = groups(0)?;
     let c = gs.iter().find(|g| g.name == "canary").ok_or("no canary group")?.clone();
     let mut res = BTreeMap::new();
+    let mut hs = Vec::new();
     for &obs in obs_list {
-        let out = Mutex::new(PassOut::default());
-        let probe = match obs {
-            Obs::Native => 2,
-            Obs::Growth => 1,
-            Obs::Valgrind | Obs::Miri => 0,
-        };
-        run_item(obs, 0, &c, probe, probe + 1, &out);
-        // and the correct probe must pass
-        run_item(obs, 0, &c, 3, 4, &out);
-        let o = out.into_inner().unwrap();
-        let flagged = o.findings.iter().any(|f| f.probe == probe);
-        let clean_ok = !o.findings.iter().any(|f| f.probe == 3);
+        let c = c.clone();
+        hs.push(std::thread::spawn(move || {
+            let out = Mutex::new(PassOut::default());
+            let probe = match obs {
+                Obs::Native => 2,
+                Obs::Growth => 1,
+                Obs::Valgrind | Obs::Miri => 0,
+            };
+            // the wrong program and the correct program (index 3) in one child where the
+            // observer survives the first (growth), else in two
+            run_item(obs, 0, &c, probe, probe + 1, &out);
+            run_item(obs, 0, &c, 3, 4, &out);
+            let o = out.into_inner().unwrap();
+            let flagged = o.findings.iter().any(|f| f.probe == probe);
+            let clean_ok = !o.findings.iter().any(|f| f.probe == 3) && o.errors.is_empty();
+            (obs, flagged, clean_ok, o.errors)
+        }));
+    }
+    for h in hs {
+        let (obs, flagged, clean_ok, errors) = h.join().map_err(|_| "canary thread panicked".to_string())?;
         if !flagged || !clean_ok {
-            return Err(format!("observer {} failed its canary (flagged wrong code: {flagged}, passed correct code: {clean_ok}); errors {:?}", obs.name(), o.errors));
+            return Err(format!("observer {} failed its canary (flagged wrong code: {flagged}, passed correct code: {clean_ok}); errors {errors:?}", obs.name()));
         }
         res.insert(obs.name().to_string(), json!({"wrong_code_flagged": flagged, "correct_code_passed": clean_ok}));
     }
@@ -255,7 +273,8 @@ pub fn run_all(tier: &str, ctx: &mut Ctx) -> Value {
     let threads = std::thread::available_parallelism().map_or(8, |n| n.get());
     let t0 = Instant::now();
     // build the Miri flavour once, serially (16 concurrent cargo invocations would fight over the lock)
-    let pre = Command::new("cargo").args(["+nightly", "miri", "run", "--offline", "-q", "--target-dir", "/verif/engine/target-miri", "--", "groups"]).current_dir(DIR).env("MEMPROBE_LEVEL", "0").env("CARGO_NET_OFFLINE", "true").env("MIRIFLAGS", "-Zmiri-disable-isolation -Zmiri-permissive-provenance -Zmiri-ignore-leaks").output();
+    let canary_group = groups(0).ok().and_then(|g| g.iter().find(|x| x.name == "canary").map(|x| x.idx)).unwrap_or(0).to_string();
+    let pre = Command::new("cargo").args(["+nightly", "miri", "run", "--offline", "-q", "--target-dir", "/verif/engine/target-miri", "--", "run", &canary_group, "3", "4"]).current_dir(DIR).env("MEMPROBE_LEVEL", "0").env("CARGO_NET_OFFLINE", "true").env("MIRIFLAGS", "-Zmiri-disable-isolation -Zmiri-permissive-provenance -Zmiri-ignore-leaks").output();
     match &pre {
         Ok(o) if o.status.success() => {}
         Ok(o) => {
@@ -314,7 +333,7 @@ pub fn run_all(tier: &str, ctx: &mut Ctx) -> Value {
         // traversals and algorithms, operators, generators, conversions, user-built trees and matrices,
         // overflowing orders, the threaded routines, and everything on non-contiguous AdjacencyMap ids
         let sel = |g: &GroupInfo| {
-            matches!(g.name.as_str(), "algo/AL" | "algo/AM-sparse" | "dijkstra/WU" | "bfm-fw/WI" | "johnson/AM" | "johnson/AM-sparse" | "generators" | "conversions" | "predecessor-tree" | "distance-matrix" | "overflow" | "threaded" | "unweighted/AL" | "unweighted/AM" | "unweighted/AM-sparse" | "common/AM-sparse" | "weighted/WU")
+            matches!(g.name.as_str(), "algo/AL" | "algo/AM-sparse" | "dijkstra/WU" | "bfm-fw/WI" | "johnson/AM" | "johnson/AM-sparse" | "generators" | "conversions" | "conversions/AM-sparse" | "predecessor-tree" | "distance-matrix" | "overflow" | "threaded" | "unweighted/AL" | "unweighted/AM" | "unweighted/AM-sparse" | "common/AM-sparse" | "weighted/WU")
         };
         run(Obs::Miri, miri_level, &sel, 120, "mini catalogue (raw-pointer groups) under Miri");
     }
